@@ -310,6 +310,9 @@ def run(tier, seed):
                         "tags": [op]}
                 run.count(case, c > 0, [op, "result:" + ("ok" if "ok" in got else got["err"])])
                 run.cov["traces_validated_against_impl"] += 1
+                if isinstance(fresh.get("err"), str) and fresh["err"].startswith("crash:RecursionError"):
+                    run.tag("result-too-deep-to-transport")     # the fork could not pickle a very deep result
+                    continue
                 if got != fresh:
                     case["after_history"], case["fresh"] = got, fresh
                     run.fail(case, "the result of a call after a history differs from the same call made first in a fresh interpreter",
